@@ -16,6 +16,10 @@ struct SymD {
 #undef SYMD_CT
   SymD(bool v) : id(mk_lit(v ? 1.0 : 0.0)), pad(0) {}
   explicit SymD(SymR r) : id(r.id), pad(0) {}                      // float -> double conversion is exact: same node
+  // double -> float narrowing rounds; the format cannot express it.  The implicit conversion exists only so that
+  // glm code relying on it compiles (type_quat_simd.inl: `_mm_set_ps1(double s)`); executing it fails the unit
+  // (defined in policy_sym.hpp).
+  operator SymR() const;
   static SymD from(uint32_t id) { SymD s; s.id = id; s.pad = 0; return s; }
   static SymD var(uint32_t i) { return from(mk_var(i)); }
   SymD& operator+=(SymD o) { id = mk(ADD, id, o.id); return *this; }
